@@ -99,6 +99,7 @@ pub(crate) fn empty_format(_: core::fmt::Arguments<'_>) -> String { String::new(
 pub(crate) mod tables;
 pub(crate) mod c03;
 pub(crate) mod c14;
+pub(crate) mod c17;
 
 /// Native replay entry: VERIF_K_REPLAY="harness:v0,v1,..." ; prints the verdict.
 #[cfg(all(test, verif_replay))]
@@ -130,6 +131,10 @@ pub(crate) fn dispatch<S: Src>(name: &str, s: &mut S) {
         "c14_prev_n8" => c14::prev::<S, 8, 4>(s, false),
         "c14_next_footer_n4" => c14::next::<S, 4, 3>(s, true),
         "c14_prev_footer_n4" => c14::prev::<S, 4, 3>(s, true),
+        "c17_posix_parse_6" => c17::posix_parse::<S, 6>(s),
+        "c17_posix_parse_9" => c17::posix_parse::<S, 9>(s),
+        "c17_parse_i64_20" => c17::parse_i64::<S, 20>(s),
+        "c17_parse_i64_6" => c17::parse_i64::<S, 6>(s),
         _ => panic!("unknown harness"),
     }
 }
